@@ -231,6 +231,7 @@ type Analysis struct {
 	StarveMay, AgeMay bool
 	AllAcked  bool
 	Clean     bool
+	CleanUp   bool
 	Attempts  []*attempt
 	TaintOK, UntaintOK int
 	TaintAttempted, UntaintAttempted map[string]bool
@@ -464,8 +465,37 @@ func analyse(gs *GroupScan, g *GroupCfg, rec *ScanRecord) *Analysis {
 		}
 	}
 	a.Clean = a.AllAcked && !gs.Faulted && !preFaulted && !rec.Outcome.EndsLifetime() && a.Kind != kListErr
+	// CleanUp: enough for the scale-up arithmetic rules (C03 recovery, C04 clamp, C05, C07 remainder): the
+	// need follows from the view alone, untaint failures are accounted for by the journal, so only the
+	// refresh path, the lists, the increase calls themselves and the scan's completion must be fault-free.
+	incAcked := true
+	for _, c := range a.Increase {
+		if c.Err != "" || c.Fault == FErrorsPlus {
+			incAcked = false
+		}
+	}
+	attachOK := true
+	for _, c := range gs.Calls {
+		if (c.Op == OpAttach || c.Op == OpStatus || c.Op == OpTerminateEC2 || c.Op == OpDescribeASG) && (c.Err != "" || c.Fault != "") {
+			attachOK = false
+		}
+		if c.Op == OpCreateFleet && c.Fault != "" {
+			attachOK = false
+		}
+	}
+	a.CleanUp = !preFaulted && a.Kind != kListErr && !rec.Outcome.EndsLifetime() && incAcked && attachOK && !neverReadyInScan(gs)
 	a.StateHash = a.hash(gs, g)
 	return a
+}
+
+// neverReadyInScan: a fleet request in this scan ended in TerminateInstances (readiness timeout).
+func neverReadyInScan(gs *GroupScan) bool {
+	for _, c := range gs.Calls {
+		if c.Op == OpTerminateEC2 {
+			return true
+		}
+	}
+	return false
 }
 
 func instanceOf(providerID string) string {
